@@ -61,16 +61,37 @@ Definition question_cands (svcs : list svc) (q : bytes * N) : list cand :=
   if qtype =? TY_PTR then ptr_cands qname svcs
   else addr_cands qname qtype svcs ++ inst_cands qname qtype svcs.
 
-(* the code as it is *)
+(* One definition for the code and for the property text, differing in two switches:
+   code_match = true : "same record" is DnsRecordExt::matches (includes the cache-flush bit);
+               false: the property's same_record (owner, type, class, RDATA);
+   keep_adds  = true : additionals of a non-PTR answer are added unconditionally
+                       (add_answer_of_service: the addresses of an SRV question);
+               false: a suppressed answer takes the additionals it would have brought with it. *)
+Definition suppressed_gen (code_match : bool) (a : orec) (kas : list (ident * N)) : bool :=
+  if code_match then suppressed_by (o_id a) (o_ttl a) kas
+  else existsb (fun k => suppress_spec (o_id a) (o_ttl a) (fst k) (snd k)) kas.
+
+Definition step_gen (code_match keep_adds : bool) (kas : list (ident * N)) (out : outmsg) (c : cand) : outmsg :=
+  if negb (cd_has_addrs c) then out
+  else if suppressed_gen code_match (cd_answer c) kas
+  then mkOut (out_answers out)
+             (if keep_adds && negb (cd_is_ptr c) then out_additionals out ++ cd_adds c else out_additionals out)
+             (out_suppressed out + 1)
+  else mkOut (out_answers out ++ [cd_answer c]) (out_additionals out ++ cd_adds c) (out_suppressed out).
+
+(* the code as it is, written with the functions of Model/Life.v *)
 Definition step_code (kas : list (ident * N)) (out : outmsg) (c : cand) : outmsg :=
   if cd_is_ptr c then add_answer_with_additionals kas out (cd_has_addrs c) (cd_answer c) (cd_adds c)
   else
     let (o1, _) := add_answer kas out (cd_answer c) in
-    (* add_answer_of_service: the addresses of an SRV question are added unconditionally *)
     mkOut (out_answers o1) (out_additionals o1 ++ cd_adds c) (out_suppressed o1).
 
 Definition finish (out : outmsg) : option (list orec * list orec) :=
   match out_answers out with [] => None | _ => Some (out_answers out, out_additionals out) end.
+
+Definition resp_gen (code_match keep_adds : bool) (svcs : list svc) (questions : list (bytes * N))
+    (kas : list (ident * N)) : option (list orec * list orec) :=
+  finish (fold_left (step_gen code_match keep_adds kas) (flat_map (question_cands svcs) questions) (mkOut [] [] 0)).
 
 Definition resp_predict (svcs : list svc) (questions : list (bytes * N)) (kas : list (ident * N))
   : option (list orec * list orec) :=
@@ -78,25 +99,7 @@ Definition resp_predict (svcs : list svc) (questions : list (bytes * N)) (kas : 
 
 (* the property text: an answer whose record is listed with a TTL above half is left out
    together with the additionals it would have brought; everything else is answered *)
-Definition suppressed_spec (a : orec) (kas : list (ident * N)) : bool :=
-  existsb (fun k => suppress_spec (o_id a) (o_ttl a) (fst k) (snd k)) kas.
-
-Definition step_spec (kas : list (ident * N)) (out : outmsg) (c : cand) : outmsg :=
-  if negb (cd_has_addrs c) then out
-  else if suppressed_spec (cd_answer c) kas
-  then mkOut (out_answers out) (out_additionals out) (out_suppressed out + 1)
-  else mkOut (out_answers out ++ [cd_answer c]) (out_additionals out ++ cd_adds c) (out_suppressed out).
-
-Definition resp_spec (svcs : list svc) (questions : list (bytes * N)) (kas : list (ident * N))
-  : option (list orec * list orec) :=
-  finish (fold_left (step_spec kas) (flat_map (question_cands svcs) questions) (mkOut [] [] 0)).
-
-(* the class in which code and property text differ: a non-PTR answer that brings additionals
-   (the SRV answer of an SRV question) is suppressed *)
-Definition srv_adds_kept_class (svcs : list svc) (questions : list (bytes * N)) (kas : list (ident * N)) : bool :=
-  existsb (fun c => negb (cd_is_ptr c) && negb (match cd_adds c with [] => true | _ => false end)
-                    && suppressed_spec (cd_answer c) kas)
-          (flat_map (question_cands svcs) questions).
+Definition resp_spec := resp_gen false false.
 
 (* ---- comparison of an observed response with the expected one, as multisets ---- *)
 Definition orec_eqb (a b : orec) : bool :=
@@ -118,3 +121,8 @@ Definition resp_eqb (a b : option (list orec * list orec)) : bool :=
 Definition chk_C10_resp (svcs : list svc) (questions : list (bytes * N)) (kas : list (ident * N))
     (observed : option (list orec * list orec)) : bool :=
   resp_eqb observed (resp_spec svcs questions kas).
+
+(* classification of a rejected response: which of the two known deviations explain it *)
+Definition resp_explained_by (code_match keep_adds : bool) (svcs : list svc) (questions : list (bytes * N))
+    (kas : list (ident * N)) (observed : option (list orec * list orec)) : bool :=
+  resp_eqb observed (resp_gen code_match keep_adds svcs questions kas).
